@@ -338,6 +338,17 @@ std::optional<std::chrono::seconds> manifest_ttl(const protocol::Manifest& manif
     return enforce_manifest_ttl(ttl, min_ttl, max_ttl);
 }
 
+// A manifest may name an expiry far beyond what this node is willing to keep anything for.
+// Everything derived from it later (key shares republished on fetch, pending fetches, swarm
+// plans, the cache entry itself) takes its lifetime from the cached copy, so the copy is cut to
+// the accepted lifetime once, when the manifest enters the node.
+void cap_manifest_expiry(protocol::Manifest& manifest, std::chrono::seconds accepted_ttl) {
+    const auto cap = std::chrono::system_clock::now() + accepted_ttl;
+    if (manifest.expires_at > cap) {
+        manifest.expires_at = cap;
+    }
+}
+
 Config sanitize_config(Config config) {
     config.key_rotation_interval = sanitize_key_rotation_interval(config.key_rotation_interval);
     config.min_manifest_ttl = sanitize_manifest_min(config.min_manifest_ttl);
@@ -551,7 +562,13 @@ void Node::schedule_assigned_fetch(const protocol::AnnouncePayload& payload) {
     if (!payload.endpoint.empty()) {
         state.endpoint = payload.endpoint;
     }
-    state.manifest_uri = payload.manifest_uri;
+    // Keep the cached (lifetime-capped) manifest, not the announced text: re-reading the
+    // original URI on every retry would grant a far-future manifest a fresh full lifetime each time.
+    try {
+        state.manifest_uri = manifest_cached ? protocol::encode_manifest(manifest) : payload.manifest_uri;
+    } catch (const std::exception&) {
+        state.manifest_uri = payload.manifest_uri;
+    }
     state.manifest_expires = manifest.expires_at;
     state.next_attempt = now;
     state.in_flight = false;
@@ -1654,6 +1671,7 @@ bool Node::ingest_manifest(const std::string& manifest_uri) {
     if (!ttl.has_value()) {
         return false;
     }
+    cap_manifest_expiry(manifest, *ttl);
 
     {
         SchedulerLock lock(scheduler_mutex_);
@@ -1680,6 +1698,7 @@ std::optional<ChunkData> Node::receive_chunk(const std::string& manifest_uri, Ch
     if (!ttl.has_value()) {
         return std::nullopt;
     }
+    cap_manifest_expiry(manifest, *ttl);
 
     std::vector<crypto::ShamirShare> shares;
     shares.reserve(manifest.shards.size());
@@ -2474,6 +2493,8 @@ void Node::handle_announce(const protocol::AnnouncePayload& payload,
         reputation_.record_failure(sender);
         return;
     }
+
+    cap_manifest_expiry(manifest, *ttl_opt);
 
     {
         SchedulerLock lock(scheduler_mutex_);
